@@ -14,7 +14,8 @@
   Statements the translator drops, because they do nothing on the logical domain (1-D series,
   carriers already normalised): `original_shape = x.shape`, `x = x.flatten()`,
   `.reshape(original_shape)`, `tinp = mapdates(tinp).flatten()` (C15's business), dtype
-  arguments, the `warnings` / `np.errstate` context managers, `msg = …`.
+  arguments, the `warnings` / `np.errstate` context managers, `msg = …`, `bboxnt = namedtuple(…)`; `if bbox is not None:` is
+  inlined (an explicit `bbox=None` is outside the model's domain); `great_circle_distance(lat, lon)` is the model input `hops`.
 -/
 import IoosQc.Model.Np
 
@@ -72,6 +73,25 @@ def rate_of_change_test (inp : List V) (tinp : List Int) (threshold : Rat) : Res
   roc := setTail roc (uf1 Fl.abs (maDivArr (maDiff inp) (dtSeconds tinp)))
   flag_arr := setWhereB flag_arr (gtS roc threshold) .suspect
   flag_arr := setWhere flag_arr (maskOf inp) .missing
+  return flag_arr
+
+def location_test (lon : List V) (lat : List V) (bbox : SeqArg) (range_max : Option Rat) (hops : List V) : Res := do
+  fixedLength bbox 4
+  let bbox ← boxOf bbox
+  let lat := ofInput lat
+  let lon := ofInput lon
+  if lon.length != lat.length then
+    throw .value
+  let mut flag_arr := ones lon.length
+  let mut mloc := band (maskOf lon) (maskOf lat)
+  flag_arr := setWhere flag_arr mloc .missing
+  let mut mismatch := bxor (maskOf lon) (maskOf lat)
+  flag_arr := setWhere flag_arr mismatch .fail
+  if let some range_max := range_max then
+    if lon.length > 1 then
+      let mut d := greatCircle hops lon.length
+      flag_arr := setWhereB flag_arr (gtS d range_max) .suspect
+  flag_arr := setWhereB flag_arr (bor (bor (bor (ltS lon bbox.minx) (ltS lat bbox.miny)) (gtS lon bbox.maxx)) (gtS lat bbox.maxy)) .fail
   return flag_arr
 -- END GENERATED
 
